@@ -141,7 +141,7 @@ def run(tier: str) -> int:
     if tier == "quick":
         body(chk, mc_nodes=3, n_random=1500, n_pairs=300, deep=3)
     else:
-        body(chk, mc_nodes=4, n_random=6000, n_pairs=1500, deep=4)
+        body(chk, mc_nodes=3, n_random=8000, n_pairs=2000, deep=4)
     chk.cov["exhaustive"] = True
     chk.cov["rule"] = ("TLC enumerates every page with <= N nodes over the 'scope' alphabet (colliding names between page "
                        "context, loop variables, with-bindings, kwargs, component data; `only`), x2 modes, each replayed with "
